@@ -87,8 +87,18 @@ func propC03(g *G, n int) {
 			// infinite depending on both coefficients), coefficients from the structured pool (1, 10^k, Cmax, 2^110, ...)
 			gap := 6111 + g.pick(105)
 			ey := g.pick(12288 - gap)
-			xlo, xhi := encodeDec(g.chance(0.5), g.coef(), ey+gap)
-			ylo, yhi := encodeDec(g.chance(0.5), g.coef(), ey)
+			cx, cy := g.coef(), g.coef()
+			if g.chance(0.4) { // a power of ten over a full-length divisor: the quotient's digit count is decided by the divisor alone
+				cx = pow10(g.pick(35))
+			}
+			if g.chance(0.5) {
+				cy = g.coefLen(34 + g.pick(2))
+			}
+			if cy.Sign() == 0 {
+				cy = big.NewInt(1)
+			}
+			xlo, xhi := encodeDec(g.chance(0.5), cx, ey+gap)
+			ylo, yhi := encodeDec(g.chance(0.5), cy, ey)
 			x, y = dec{xlo, xhi}, dec{ylo, yhi}
 		}
 		m := sU64(uint64(g.mode()))
